@@ -19,6 +19,8 @@ TRUSTED_BASE = [
 
 
 def budget(tier: str, quick: int, thorough: int) -> int:
+    if tier == "search":      # failing-input search after something broke: a few times the quick budget, fresh seeds
+        return quick * 3
     return thorough if tier == "thorough" else quick
 
 
@@ -71,6 +73,11 @@ PROPS: dict[str, dict[str, Any]] = {
         "components": [worker(), sched(["worksteal"], crash=0.03)],
         "assumptions": ["queue duplicate-freeness is an invariant of reachable system states (controller never has an index outstanding twice, C16)"],
     },
+    "C16": {
+        "components": [sched(["load", "worksteal", "loadscope", "loadfile", "loadgroup", "each"], crash=0.08)],
+        "assumptions": ["theorems cover load and worksteal; the loadscope family and each are covered by the correspondence + wire monitors only",
+                        "load: the first schedule() does not check shutting_down (stated as hypothesis, witness proved)"],
+    },
     "C15": {
         "components": [sched(["load", "worksteal"], crash=0.15)],
         "assumptions": ["the crash hook is a plugin: its calls to mark_test_pending are the `markPending` ops of the sequences"],
@@ -113,9 +120,9 @@ def search(prop: str, tier: str, seed: int, broken: list[dict]) -> list[CompResu
     """Failing-input search after a proof obligation or a correspondence broke: rerun the property's
     components with a larger budget and other seeds; their monitors look for a concrete violation."""
     out = []
-    for i in range(3):
+    for i in range(4):
         for comp in PROPS[prop]["components"]:
-            out.append(comp("thorough", seed + 7919 * (i + 1), prop))
+            out.append(comp("search", seed + 7919 * (i + 1), prop))
             if any(v.prop == prop for v in out[-1].violations):
                 return out
     return out
